@@ -37,28 +37,38 @@ theorem bind_ok {α β} {x : M α} {f : α → M β} {b : β} (h : (x >>= f) = .
 theorem accSum_accPut (L : Ledger) (a : Addr) (v : Nat) : accSum (accPut L a v) + accGet L a = accSum L + v :=
   NMap.total_put _ _ _
 
+theorem accSum_setAccount (L : Ledger) (a : Addr) (v : Nat) (t : Option Vest) :
+    accSum (setAccount L a v t) + accGet L a = accSum L + v := accSum_accPut L a v
+
+theorem setAccount_shape (L : Ledger) (a : Addr) (v : Nat) (t : Option Vest) :
+    ∃ acc vs, setAccount L a v t = { L with accounts := acc, vesting := vs } := ⟨_, _, rfl⟩
+
 theorem accountAdd_ok {L L' : Ledger} {a : Addr} {x : Nat} (h : accountAdd L a x = .ok L') :
-    ∃ acc, L' = { L with accounts := acc } ∧ accSum L' = accSum L + x := by
+    ∃ acc vs, L' = { L with accounts := acc, vesting := vs } ∧ accSum L' = accSum L + x := by
   unfold accountAdd at h
   split at h
-  · next hx => cases h; exact ⟨L.accounts, rfl, by omega⟩
+  · next hx => cases h; exact ⟨L.accounts, L.vesting, rfl, by omega⟩
   · split at h
     · cases h
     · cases h
-      refine ⟨_, rfl, ?_⟩
-      have := accSum_accPut L a (accGet L a + x); omega
+      refine ⟨_, _, rfl, ?_⟩
+      have := accSum_setAccount L a (accGet L a + x) (vestGet? L a); omega
+
+theorem accSpendable_le (L : Ledger) (a : Addr) : accSpendable L a ≤ accGet L a := by
+  unfold accSpendable; split <;> omega
 
 theorem accountSub_ok {L L' : Ledger} {a : Addr} {x : Nat} (h : accountSub L a x = .ok L') :
-    ∃ acc, L' = { L with accounts := acc } ∧ accSum L' + x = accSum L := by
+    ∃ acc vs, L' = { L with accounts := acc, vesting := vs } ∧ accSum L' + x = accSum L := by
   unfold accountSub at h
   split at h
-  · next hx => cases h; exact ⟨L.accounts, rfl, by omega⟩
+  · next hx => cases h; exact ⟨L.accounts, L.vesting, rfl, by omega⟩
   · split at h
     · cases h
     · next hlt =>
       cases h
-      refine ⟨_, rfl, ?_⟩
-      have := accSum_accPut L a (accGet L a - x); have := accGet_le L a; omega
+      refine ⟨_, _, rfl, ?_⟩
+      have := accSum_setAccount L a (accGet L a - x) (vestGet? L a); have := accGet_le L a
+      have := accSpendable_le L a; omega
 
 /-! ### pools -/
 
